@@ -331,6 +331,13 @@ func ZZ_C04_alloc() {
 	st.failPut = zz.Bool("put.fails")
 	hasOld := zz.Bool("has.old")
 	old := zzLocalRes("eni-1", 5)
+	// the recorded address set of every family mix: IPv4 only, IPv6 only, dual stack
+	switch zz.Fork("old.family", 3) {
+	case 1:
+		old.IP = types.IPSet2{IPv6: netip.MustParseAddr("fd00::5")}
+	case 2:
+		old.IP.IPv6 = netip.MustParseAddr("fd00::5")
+	}
 	oldCID := "c0"
 	if hasOld {
 		st.recs["ns/p0"] = daemon.PodResources{PodInfo: kc.pod, ContainerID: &oldCID, Resources: old.ToStore()}
@@ -357,9 +364,9 @@ func ZZ_C04_alloc() {
 	lr, isLocal := w.lastReq.ResourceRequests[0].(*eni.LocalIPRequest)
 	zz.Assert(len(w.lastReq.ResourceRequests) == 1 && isLocal, "a shared-ENI pod asks the local pool for one address set")
 	if hasOld {
-		zz.Assert(lr.NetworkInterfaceID == "eni-1" && lr.IPv4 == old.IP.IPv4, "a repeated ADD is pinned to the interface and address recorded at the previous ADD")
+		zz.Assert(lr.NetworkInterfaceID == "eni-1" && lr.IPv4 == old.IP.IPv4 && lr.IPv6 == old.IP.IPv6, "a repeated ADD is pinned to the interface and the addresses (of whichever families) recorded at the previous ADD")
 	} else {
-		zz.Assert(lr.NetworkInterfaceID == "" && !lr.IPv4.IsValid(), "a first ADD is not pinned")
+		zz.Assert(lr.NetworkInterfaceID == "" && !lr.IPv4.IsValid() && !lr.IPv6.IsValid(), "a first ADD is not pinned")
 	}
 	nPut, nRel := zzCount(w, "put"), zzCount(w, "release")
 	if err != nil {
